@@ -57,10 +57,14 @@ def main(argv=None):
     res = reg[pid](pid, args.tier, b, props)
     known = common.load_known()
     new_violations = []
+    printed = set()
     for v in res["violations"]:
         k = known_match(pid, v, known)
         if k:
-            print("KNOWN-FINDING: property=%s %s" % (pid, k.get("what", "")))
+            line = "KNOWN-FINDING: property=%s %s" % (pid, k.get("what", ""))
+            if line not in printed:
+                printed.add(line)
+                print(line)
         else:
             new_violations.append(v)
     cov = res["coverage"]
